@@ -5,9 +5,41 @@ import vlib, graphwalk
 PID = "C20"
 
 
+def line_op(r):
+    """The generator-format operation that produced an observation line (for --replay)."""
+    op = r.get("op")
+    if op == "open":
+        return ["Open", [r["s"], r["t"]]]
+    if op == "append":
+        return ["AppendSz", [r["s"], r["t"], r["sz"]]]
+    if op == "after":
+        return ["AfterMut" if r.get("mut") else "After", [r["s"], r["t"], r["idx"]]]
+    if op == "setmax":
+        return ["SetMax", [r["max"]]]
+    if op == "closed":
+        return ["Closed", [r["s"]]]
+    if op == "iget":
+        return ["Get", [r["k"], r["s"], r["t"], r["idx"]]]
+    return [{"ibegin": "Begin", "inext": "IterNext", "istop": "Stop", "idrop": "Drop"}.get(op, op), [r.get("k")]]
+
+
+def trace_ops(trows, upto):
+    """Operations of a trace up to and including its line number `upto` (0 = the reset line)."""
+    ops, skip = [], False
+    for r in trows[1:upto + 1]:
+        if skip:          # the line after an AfterMut line is the mutation AfterMut performs itself
+            skip = False
+            continue
+        ops.append(line_op(r))
+        skip = bool(r.get("mut"))
+    return ops
+
+
 def run(tier, seed, replay):
     v = vlib.Verdict(PID, tier, seed)
-    v.assumptions = ["payload identity is carried in the first payload byte (at most 250 appends per history)",
+    v.assumptions = ["a read is one ranging of the iterator After returns: it begins when the ranging begins, not when After is called "
+                     "(package iter: calling the iterator again walks the sequence again; After itself touches nothing)",
+                     "payload identity is carried in the first payload byte (at most 250 appends per history)",
                      "store state is projected through the public API (After probing, MaxBytes)",
                      "TLC exhaustive results are for the stated small constants"]
     out = vlib.outdir(PID)
@@ -18,12 +50,23 @@ def run(tier, seed, replay):
     v.add_tlc(cfg, res)
     if not res.ok:
         raise vlib.MachineryError("model violates %s: the EventStore model no longer satisfies its own invariants" % res.violation)
+    # 1a. the same with iterator objects (After in two phases: Get / Begin / IterNext / Stop interleaved with everything)
+    icfgs = ["EventStore_mc_iter_quick.cfg"] + (["EventStore_mc_iter_thorough.cfg", "EventStore_mc_iter2_thorough.cfg"] if tier == "thorough" else [])
+    for icfg in icfgs:
+        res = vlib.run_tlc("EventStoreMC", icfg, timeout=1500, heap_gb=8)
+        vlib.tlc_must_pass(res, icfg)
+        v.add_tlc(icfg, res)
+        if not res.ok:
+            raise vlib.MachineryError("model violates %s (%s): the EventStore model no longer satisfies its own invariants" % (res.violation, icfg))
     # 1b. vacuity witnesses: these must be violated
-    for wit in ("NeverPurged", "NeverOverMax"):
+    iwits = ("NeverLiveEvicted", "NeverLiveReborn", "NeverHeldReborn") + (("NeverLiveClosed", "NeverHeldClosed") if tier == "thorough" else ())
+    wits = [(w, "EventStore_mc_quick.cfg") for w in ("NeverPurged", "NeverOverMax")] + \
+           [(w, "EventStore_mc_iter_quick.cfg") for w in iwits]
+    for wit, base in wits:
         wd = vlib.scratch("tlc-")
-        cfgtxt = open(os.path.join(vlib.SPEC, "EventStore_mc_quick.cfg")).read()
+        cfgtxt = open(os.path.join(vlib.SPEC, base)).read()
         cfgtxt = cfgtxt.split("INVARIANTS")[0] + "INVARIANT %s\n" % wit
-        r2 = vlib.run_tlc("EventStoreMC", "wit.cfg", workdir=wd, extra_files={"wit.cfg": cfgtxt}, timeout=300)
+        r2 = vlib.run_tlc("EventStoreMC", "wit.cfg", workdir=wd, extra_files={"wit.cfg": cfgtxt}, timeout=300, workers=4)
         if r2.violation != wit:
             raise vlib.MachineryError("vacuity: witness %s not reachable (%s)" % (wit, r2.error or r2.violation))
     # 2. transition cover of a small graph -> histories
@@ -37,6 +80,24 @@ def run(tier, seed, replay):
     paths, total_edges = graphwalk.cover(init, edges, maxlen=40, seed=seed, skip_selfloops=True)
     hist_path = os.path.join(out, "histories.ndjson")
     rows = [{"id": "cover%d" % i, "ops": p} for i, p in enumerate(paths)]
+    # 2b. transition cover of the graph with an iterator object: every edge, i.e. every operation (eviction by
+    # Append / SetMaxBytes, SessionClosed, Open and Append under the same ids, the other session) at every point
+    # between obtaining an iterator and ranging it, between two items of a ranging, and between two rangings
+    wd = vlib.scratch("tlc-")
+    dot = os.path.join(wd, "gi.dot")
+    ccfg = "EventStore_cover_iter.cfg" if tier == "quick" else "EventStore_cover_iter_thorough.cfg"
+    rc = vlib.run_tlc("EventStoreMC", ccfg, workdir=wd, timeout=600, heap_gb=6, extra_args=["-dump", "dot,actionlabels", dot])
+    vlib.tlc_must_pass(rc, "iterator cover")
+    v.add_tlc(ccfg, rc)
+    init, iedges = graphwalk.parse_dot(dot)
+    # self-loops are not walked, except Begin: a ranging that ends at its first step (unknown stream, purged,
+    # nothing to replay) leaves the iterator object as it was, and is exactly what has to be observed
+    iedges = {u: [(l, w) for (l, w) in outs if w != u or l.startswith("Begin")] for u, outs in iedges.items()}
+    ipaths, itotal = graphwalk.cover(init, iedges, maxlen=40, seed=seed)
+    rows += [{"id": "icover%d" % i, "ops": p} for i, p in enumerate(ipaths)]
+    v.cov["iter_graph_edges"] = itotal
+    v.cov["iter_graph_nodes"] = len(iedges)
+    v.cov["iter_cover_paths"] = len(ipaths)
     if replay:
         rep = json.load(open(replay))
         rows = [{"id": "replay", "ops": rep["replay"]["ops"]}]
@@ -71,22 +132,59 @@ def run(tier, seed, replay):
         if any(st.get("first", 0) > 0 for r in trows for st in r.get("state", [])):
             nontrivial += 1
     v.cov["distinct_nontrivial"] = nontrivial
-    v.cov["rule"] = ("histories = transition cover of the TLC state graph (every edge) + seeded random histories; "
+    v.cov["iterator_steps"] = sum(1 for r in obs_rows if r.get("op") in ("ibegin", "inext"))
+    # what the two-phase dimension really exercised on the code: rangings begun after the session of the iterator was
+    # closed (and after the stream was created again and written), items handed out after the session was closed
+    # in the middle of the ranging, items handed out after they had been evicted
+    n_after_close = n_after_reborn = n_mid_close = n_mid_evict = 0
+    for tid, start, trows in traces:
+        held, live = {}, {}
+        for r in trows:
+            op, k = r.get("op"), r.get("k")
+            if op == "closed":
+                for d in (held, live):
+                    for kk in d:
+                        if d[kk]["s"] == r["s"]:
+                            d[kk]["closed"] = True
+            elif op == "iget":
+                held[k] = {"s": r["s"], "closed": False}
+            elif op == "idrop":
+                held.pop(k, None)
+            elif op == "ibegin":
+                kind = r.get("res", {}).get("kind")
+                if held.get(k, {}).get("closed"):
+                    n_after_close += 1
+                    n_after_reborn += kind == "item"
+                if kind == "item":
+                    live[k] = {"s": r["s"], "t": r["t"], "closed": False}
+            elif op == "inext":
+                if r.get("res", {}).get("kind") == "item" and k in live:
+                    n_mid_close += live[k]["closed"]
+                    stt = [x for x in r.get("state", []) if x["s"] == live[k]["s"] and x["t"] == live[k]["t"]]
+                    n_mid_evict += bool(stt and stt[0]["open"] and not live[k]["closed"] and r["res"]["items"][0] not in stt[0]["items"])
+                else:
+                    live.pop(k, None)
+            elif op == "istop":
+                live.pop(k, None)
+    v.cov["rangings_begun_after_close"] = n_after_close
+    v.cov["rangings_begun_after_reopen_and_append"] = n_after_reborn
+    v.cov["items_handed_out_after_close"] = n_mid_close
+    v.cov["items_handed_out_after_eviction"] = n_mid_evict
+    v.cov["rule"] = ("histories = transition cover of the TLC state graph (every edge) + transition cover of the graph with an "
+                     "iterator object (After in two phases) + seeded random histories; "
                      "distinct by operation sequence; non-trivial = at least one eviction happened (first > 0)")
     for tid, start, trows in traces[:2]:
         v.sample({"trace": tid, "ops": [[r.get("op"), r.get("s"), r.get("t"), r.get("sz"), r.get("idx"), r.get("max")] for r in trows[1:9]]})
     # 4. monitor: the verdict
     fails, mres = vlib.run_monitor("EventStoreMon", "EventStoreMon.cfg", obs)
     v.add_tlc("EventStoreMon", mres)
-    ops_by_id = {r["id"]: r["ops"] for r in rows}
     for f in fails:
         tid, start, trows = vlib.trace_of_line(traces, f["line"])
         e = obs_rows[f["line"] - 1]
         sig = "%s:%s" % (f["monfail"], e.get("op"))
         upto = f["line"] - start
         v.violation(sig, "monitor %s failed at line %d of trace %s (op %s)" % (f["monfail"], f["line"], tid, e.get("op")),
-                    {"ops": ops_by_id.get(tid, [])[:upto] if tid in ops_by_id else [[r.get("op"), r.get("s"), r.get("t"), r.get("sz"), r.get("idx"), r.get("max")] for r in trows[1:upto + 1]],
-                     "line": e})
+                    {"ops": trace_ops(trows, upto), "line": e})
     # 5. strict: binding / drift
     bad_traces = set(vlib.trace_of_line(traces, f["line"])[0] for f in fails)
     cur_rows = [r for (tid, s, tr) in traces if tid not in bad_traces for r in tr]
@@ -125,9 +223,17 @@ def run(tier, seed, replay):
             v.cov["concurrent_histories"] = len(ctr)
             if not ok:
                 tid, start, trows = vlib.trace_of_line(ctr, hwm) if hwm and hwm > 0 else ("?", 0, [])
-                if v.drift:
+                bad = crow[hwm - 1] if hwm and 0 < hwm <= len(crow) else {}
+                if bad.get("panic"):
+                    v.violation("NoPanic:concurrent", "the store panicked under concurrent use in history %s: %s" % (tid, bad["panic"][:120]),
+                                {"trace": trows})
+                elif v.drift:
                     v.drift.append("concurrent trace %s not linearizable w.r.t. the (drifted) spec" % tid)
                 else:
                     v.violation("linearizability", "concurrent history %s has no linearization explained by the sequential specification (line %s)" % (tid, hwm),
                                 {"trace": trows})
+    # vacuity of the two-phase dimension on the code (only meaningful when the code behaved: a violation goes first)
+    if not replay and not v.violations and not v.drift and 0 in (n_after_close, n_after_reborn, n_mid_close, n_mid_evict):
+        raise vlib.MachineryError("vacuity: the two-phase After dimension was not exercised on the code (%d %d %d %d)"
+                                  % (n_after_close, n_after_reborn, n_mid_close, n_mid_evict))
     return v.finish()
